@@ -71,7 +71,8 @@ impl QGramIndex {
         let text = text.into_iter();
         let ranks = RankTransform::new(alphabet);
 
-        let qgram_count = alphabet.len().pow(q);
+        // q-grams are encoded with a fixed number of bits per symbol (see `RankTransform::qgrams`)
+        let qgram_count = 1usize << (ranks.get_width() as u32 * q);
         let mut address = vec![0; qgram_count + 1];
 
         for qgram in ranks.qgrams(q, text.clone()) {
